@@ -750,6 +750,32 @@ func c12Gen(c *h.Ctx) []c12Case {
 		}
 		add(cs)
 	}
+	// (4b) every two-item response over a reduced alphabet, for batches of two requests, header counts 1..3 (direct)
+	{
+		bs := []int{0, 10} // Activate, Get
+		var alpha [2][]c12Item
+		for k := 0; k < 2; k++ {
+			own := c12Builders[bs[k]].op
+			for _, op := range []uint32{uint32(own), uint32(c12Builders[bs[1-k]].op)} {
+				for _, st := range []int{0, 2, 5} {
+					for _, pl := range []c12Pl{{Kind: "nil"}, {Kind: "resp", Op: uint32(own)}, {Kind: "resp", Op: uint32(c12Builders[bs[1-k]].op)}} {
+						q := c12Statuses[st]
+						alpha[k] = append(alpha[k], c12Item{Op: op, Status: q[0].(uint32), Reason: q[1].(uint32), Msg: q[2].(string), Pl: pl})
+					}
+				}
+			}
+		}
+		for _, a := range alpha[0] {
+			for _, b := range alpha[1] {
+				for cnt := int32(1); cnt <= 3; cnt++ {
+					if cnt != 2 && (a.Status != 0) == (b.Status != 0) && a.Pl.Kind == "nil" {
+						continue
+					}
+					add(c12Case{Mode: "direct", API: "batch", Ops: bs, Transport: "msg", Count: cnt, Items: []c12Item{a, b}})
+				}
+			}
+		}
+	}
 	// (5) version discovery at connect time (direct): every single-item reply x client sets x counts
 	clients := [][]int{{0, 1, 2, 3, 4}, {2, 4}, {1}, {0}}
 	for ci, cl := range clients {
@@ -877,7 +903,7 @@ func driveC12(c *h.Ctx) error {
 		"response over {item operation: own, other, unregistered, absent} x 9 (status, reason, message) classes incl. unknown enumeration values x 8 payload kinds " +
 		"{none, own response type, other operation's response type, unregistered UnknownPayload, own request type, other request type, UnknownPayload(own op), " +
 		"DiscoverVersions response}; Request/Batch with header counts 0,1,2; transport errors, builder errors, empty item lists; random responses of 0..5 items for " +
-		"batches of 0..4 requests; the version-discovery exchange of DialContext over 4 client sets; (b) over the wire through a scripted net.Pipe server and the " +
+		"batches of 0..4 requests; every two-item response over a reduced alphabet for a batch of two; the version-discovery exchange of DialContext over 4 client sets; (b) over the wire through a scripted net.Pipe server and the " +
 		"real TTLV decoder. APIs: Client.Request, Executor.ExecContext, Client.Batch / Executor.Then...ExecContext + BatchResult.Unwrap, DialContext. " +
 		"A case is non-trivial when the response is not the single conformant success; distinct by canonical case JSON.")
 	var cases []c12Case
